@@ -1,2 +1,64 @@
-(* props/C03.v — placeholder until the C++ op-semantics theorems are added. *)
-From Prophy Require Import Bytes Schema Layout Wire PcModel.
+(* props/C03.v — Python and the generated C++ full codec are wire-compatible (model level, encode side).
+   [cpp_lay]/[cpp_encode] (model/CppFull.v) follow generate_struct_encode / generate_union_encode and the
+   run-time helpers of detail/encoder.hpp over prophyc's member records and signed paddings: do_encode of
+   scalars, enums, fixed and dynamic composites, arrays, optionals (flag, padding to the value's alignment,
+   value or skipped slot), limited arrays (elements, then pos + byte_size), `pos = pos + N` and
+   `pos = align<N>(pos)` statements, union discriminator + discpad + arm + slot. Proved: for every legal
+   type and every well-typed object the bytes the C++ encoder leaves in a zeroed buffer with an aligned start
+   are the canonical encoding, in either byte order — hence byte-identical to what the Python encoder (C01)
+   produces. Not covered by a theorem: the C++ *decoder* (checks/C03.py runs the compiled one on canonical
+   bytes), alignment<T>::value of classes holding a std::vector (known finding KF-A), over-full limited vectors. *)
+From Coq Require Import ZArith List Bool Lia.
+From Prophy Require Import Bytes Schema Layout Wire Src PyStatics PyEncode PcModel CppFull
+  Arith SpecAlign Views SpecLen PyEncodeFacts PcFacts CppSizeFacts CppEncFacts.
+Import ListNotations.
+Local Open Scope Z_scope.
+
+Theorem C03_cpp_encode_canonical :
+  forall e fs v, legal (TStruct fs) = true -> wt (TStruct fs) v = true ->
+    cpp_encode e (TStruct fs) v = wire e (TStruct fs) v.
+Proof.
+  intros e fs v Hl Hw. unfold cpp_encode, wire.
+  destruct (cpp_lay_eq (TStruct fs) v 0 Hl Hw) as [H _]; [apply Z.mod_0_l; pose proof (align_ok (TStruct fs)) as Ha; apply okal_pos in Ha; lia|].
+  apply H.
+Qed.
+Print Assumptions C03_cpp_encode_canonical.
+
+Theorem C03_cpp_encode_union_canonical :
+  forall e arms v, legal (TUnion arms) = true -> wt (TUnion arms) v = true ->
+    cpp_encode e (TUnion arms) v = wire e (TUnion arms) v.
+Proof.
+  intros e arms v Hl Hw. unfold cpp_encode, wire.
+  destruct (cpp_lay_eq (TUnion arms) v 0 Hl Hw) as [H _]; [apply Z.mod_0_l; pose proof (align_ok (TUnion arms)) as Ha; apply okal_pos in Ha; lia|].
+  apply H.
+Qed.
+Print Assumptions C03_cpp_encode_union_canonical.
+
+(* either language writes what the other writes *)
+Theorem C03_python_cpp_same_bytes :
+  forall e fs v, legal (TStruct fs) = true -> wt (TStruct fs) v = true ->
+    py_enc e (TStruct fs) v = Ok (cpp_encode e (TStruct fs) v).
+Proof.
+  intros e fs v Hl Hw. rewrite (C03_cpp_encode_canonical e fs v Hl Hw).
+  apply py_enc_canonical; [reflexivity|exact Hl|exact Hw].
+Qed.
+Print Assumptions C03_python_cpp_same_bytes.
+
+(* C05's other half at model level: the encoder writes exactly get_byte_size() bytes *)
+Theorem C03_bytes_written_is_get_byte_size :
+  forall e fs v, legal (TStruct fs) = true -> wt (TStruct fs) v = true ->
+    len (cpp_encode e (TStruct fs) v) = cpp_size (TStruct fs) v.
+Proof.
+  intros e fs v Hl Hw. rewrite (C03_cpp_encode_canonical e fs v Hl Hw).
+  rewrite (cpp_size_eq (TStruct fs) v Hl Hw). unfold wire.
+  destruct (layout_lengths (TStruct fs) v Hl Hw) as [H1 _]. apply len_render. exact H1.
+Qed.
+Print Assumptions C03_bytes_written_is_get_byte_size.
+
+Example C03_example :
+  let D := TStruct [(FPlain, TScalar U32); (FBound 0%nat, TScalar U8)] in
+  let t := TStruct [(FPlain, TScalar U8); (FOpt, TScalar U64); (FPlain, D); (FPlain, TScalar U16)] in
+  let v := VStruct [VInt 1; VSome (VInt 2); VStruct [VInt 3; VList [VInt 7; VInt 8; VInt 9]]; VInt 5] in
+  legal t = true /\ wt t v = true /\
+  cpp_encode LE t v = [1;0;0;0;0;0;0;0; 1;0;0;0;0;0;0;0; 2;0;0;0;0;0;0;0; 3;0;0;0; 7;8;9;0; 5;0; 0;0;0;0;0;0].
+Proof. vm_compute. repeat split; reflexivity. Qed.
